@@ -219,6 +219,7 @@ type vcWorld struct {
 	barrierCh        chan string
 	barrierN         int
 	stacks           string // goroutine dump taken when a barrier was overdue
+	lastSentinel     *bpv7.Bundle
 	seenReports      map[string]bool
 }
 
@@ -322,6 +323,31 @@ func (w *vcWorld) close() {
 	}
 }
 
+// storeDump lists what the node's store holds (diagnosis of an overdue barrier: was the sentinel stored instead of delivered?).
+func (w *vcWorld) storeDump() string {
+	var sb strings.Builder
+	sb.WriteString("pending records in the store:\n")
+	bis, err := w.c.store.QueryPending()
+	if err != nil {
+		sb.WriteString("  (cannot list: " + err.Error() + ")\n")
+	}
+	for _, bi := range bis {
+		fmt.Fprintf(&sb, "  %s constraints=%v\n", bi.Id, bi.Properties["bundlepack/constraints"])
+	}
+	if w.lastSentinel != nil {
+		sid := w.lastSentinel.ID()
+		for k := uint64(0); k < 4; k++ {
+			sid.Timestamp[1] = k
+			if bi, err := w.c.store.QueryId(sid); err == nil {
+				fmt.Fprintf(&sb, "sentinel %s is stored: pending=%v constraints=%v\n", bi.Id, bi.Pending, bi.Properties["bundlepack/constraints"])
+			}
+		}
+		fmt.Fprintf(&sb, "sentinel: %v -> %v\n", w.lastSentinel.PrimaryBlock.SourceNode, w.lastSentinel.PrimaryBlock.Destination)
+	}
+	fmt.Fprintf(&sb, "agent endpoints known to the node: %v\n\n", w.c.agentManager.mux.Endpoints())
+	return sb.String()
+}
+
 func (w *vcWorld) barrierBundle() bpv7.Bundle {
 	w.barrierN++
 	b, err := bpv7.Builder().BundleCtrlFlags(0).Source("dtn://barrier-src/").Destination("dtn://node/barrier").CreationTimestampTime(w.base.Add(time.Duration(w.barrierN)*time.Millisecond + time.Hour)).
@@ -352,7 +378,7 @@ func (w *vcWorld) waitBarrier() error {
 			}
 			// stuck or just slow? keep the stacks of all goroutines as they are now, and give the node two more minutes
 			buf := make([]byte, 1<<20)
-			w.stacks = string(buf[:runtime.Stack(buf, true)])
+			w.stacks = w.storeDump() + string(buf[:runtime.Stack(buf, true)])
 			slow = true
 			to = time.After(120 * time.Second)
 		}
@@ -566,6 +592,7 @@ func (w *vcWorld) submit(name string) error {
 	s.PrimaryBlock.ReportTo = s.PrimaryBlock.SourceNode
 	s.PrimaryBlock.CRC = nil
 	s.PrimaryBlock.SetCRCType(bpv7.CRC32)
+	w.lastSentinel = &s
 	select {
 	case w.ag.send <- agent.BundleMessage{Bundle: s}:
 	case <-time.After(20 * time.Second):
@@ -594,7 +621,7 @@ func (w *vcWorld) submit(name string) error {
 	}
 	// stuck or just slow? keep the goroutines as they are now and give it another minute
 	buf := make([]byte, 1<<20)
-	w.stacks = string(buf[:runtime.Stack(buf, true)])
+	w.stacks = w.storeDump() + string(buf[:runtime.Stack(buf, true)])
 	for time.Since(t0) < 63*time.Second {
 		if gone() {
 			return errors.New("timing: sentinel submission took more than 3 s to leave the store")
